@@ -35,7 +35,7 @@ def exhaustive(tier):
 def required(tier):
     return {"answers_compared": 2500, "repeated_after_state_change": 800, "cache_hits_observed": 500,
             "state_changes": 300, "distinct_states": 15, "second_registry_touches": 20,
-            "redefinition_histories": 20, "keyword_activations": 50, "keyword_override_histories": 20, "redefining_context_histories": 8}
+            "redefinition_histories": 20, "keyword_activations": 50, "keyword_override_histories": 20, "redefining_context_histories": 8, "new_name_histories": 6}
 
 
 NEWDEFS = ["vfu0 = 3 * meter = vf0", "vfu1 = 7 * vfu0", "vfu2 = 2 * pound * vfu1 / second ** 2",
@@ -46,7 +46,9 @@ NEWDEFS = NEWDEFS[:4] + ["dab = 5 * meter"]   # a NEW name that earlier lookups 
 NEWDEFS = NEWDEFS[:2] + ["vfu0 = 4 * meter = vf0"] + NEWDEFS[2:]
 # second step: a new PREFIX (to_compact, parse_units and conversions must take it into account at once)
 NEWDEFS = NEWDEFS[:1] + ["vpfx- = 1e33"] + NEWDEFS[1:]
-DEFNAMES = ("vfu0", "vpfx", "vfu1", "vfu0", "vfu2", "vfu3", "dab")
+# last step: an ALIAS whose spelling earlier lookups read as prefix + unit (kyd = kilo + yard)
+NEWDEFS = NEWDEFS + ["@alias vfu0 = kyd"]
+DEFNAMES = ("vfu0", "vpfx", "vfu1", "vfu0", "vfu2", "vfu3", "dab", "kyd")
 SYSTEMS = ["mks", "cgs", "imperial", "SI", None]
 
 QUESTIONS = [
@@ -78,6 +80,7 @@ QUESTIONS = [
     ("convert", "vpfxmeter", "meter"), ("compact", "gram", 3e36),
     # 'dab' reads as decabarn until the history defines a unit of that name; afterwards the exact name wins
     ("parse_units", "dab"), ("convert", "dab", "meter"), ("convert", "dab", "barn"), ("dim", "dab"),
+    ("parse_units", "kyd"), ("convert", "kyd", "meter"),
 ]
 
 OPS = ["q"] * 0 + ["define", "ctx_rule_on", "ctx_kw_on", "ctx_redef_on", "ctx_off", "sys", "second", "q0", "q1", "q2", "q3",
@@ -93,6 +96,9 @@ def shards(tier, seed):
     for i in range(10 if tier == "quick" else 24):
         out.append({"kind": "random", "name": f"random{i}", "n": 10 if tier == "quick" else 120,
                     "nit": "fraction" if i % 3 == 2 else "float"})
+    for i in range(2 if tier == "quick" else 6):
+        out.append({"kind": "newname", "name": f"newname{i}", "n": 3 if tier == "quick" else 30,
+                    "nit": "fraction" if i % 2 else "float"})
     for i in range(2 if tier == "quick" else 6):
         out.append({"kind": "redefctx", "name": f"redefctx{i}", "n": 4 if tier == "quick" else 30,
                     "nit": "fraction" if i % 2 else "float"})
@@ -248,14 +254,14 @@ def run_history(ops, world, rec, rng, tag, pool=None):
     defined_inside_redef = set()   # names defined while a redefining context was active (finding D18)
     fixed_pool = pool
     pool = rng.sample(QUESTIONS, 8)
-    pool[:3] = rng.sample(QUESTIONS[-24:-9], 3)   # always some dependants of the redefined unit
+    pool[:3] = rng.sample(QUESTIONS[-26:-11], 3)   # always some dependants of the redefined unit
     if any(o.startswith("ctx_") for o in ops):
         # histories that switch contexts always ask the questions those contexts answer
         pool[3] = ("convert", "nanometer", "terahertz")
         pool[4] = ("convert", "joule", "hertz")
     if fixed_pool:
         pool = fixed_pool
-    pool[3] = rng.choice(QUESTIONS[-4:])           # and one question about the name that gets defined later
+    pool[3] = rng.choice(QUESTIONS[-6:])           # and one question about the name that gets defined later
     for op in ops:
         state_before = (ndefs, tuple(stack), system)
         if op == "define":
@@ -345,7 +351,7 @@ def run_history(ops, world, rec, rng, tag, pool=None):
                           question_kind=q[0], redefining_context_active=in_redef,
                           redefining_context_used_earlier=was_redef and not in_redef,
                           touches_base_units=q[0] in ("base", "to_base", "compact"), workload=tag,
-                          asks_about_name_first_read_as_prefixed_unit_then_defined=("dab" in repr(q) and ndefs >= len(NEWDEFS)),
+                          asks_about_name_first_read_as_prefixed_unit_then_defined=("dab" in repr(q) and ndefs > NEWDEFS.index("dab = 5 * meter")),
                           asks_about_unit_defined_inside_redefining_context=any(
                               n in repr(q) or (n == "vfu0" and "vf0" in repr(q)) for n in
                               closure_defs(defined_inside_redef)))
@@ -388,10 +394,25 @@ def run_shard(spec, rec):
                     ops += ["q%d" % i for i in range(8)]
                 run_history(ops, world, rec, rng, "bfs")
         rec.sample({"bfs_prefix_example": list(itertools.islice(itertools.product(alphabet, repeat=spec["length"]), 5, 6))})
+    elif spec["kind"] == "newname":
+        # every definition step of NEWDEFS in turn, with the questions about the names they introduce
+        # (dab: read as deca + barn until defined; vpfx: a new prefix; vfu*) asked before and after each
+        names_q = [q for q in QUESTIONS if any(t in repr(q) for t in ("dab", "kyd", "vpfx", "vfu0", "vf0"))]
+        for i in range(spec["n"]):
+            pool = ([q for q in names_q if "dab" in repr(q) or "kyd" in repr(q)][:6]
+                    + rng.sample([q for q in names_q if "dab" not in repr(q) and "kyd" not in repr(q)], 2))
+            allq = [f"q{j}" for j in range(len(pool))]
+            ops = list(allq)
+            for _ in range(len(NEWDEFS)):
+                if rng.random() < 0.25:
+                    ops += [rng.choice(("sys", "ctx_rule_on", "ctx_off", "second"))]
+                ops += ["define"] + allq
+            run_history(ops, world, rec, rng, "newname", pool=pool)
+            rec.count("new_name_histories")
     elif spec["kind"] == "redefctx":
         # every question about a unit that depends on the unit redefined by the context 'vredef' (directly,
         # or through symbols / aliases several definitions away) is asked before, inside and after it
-        deps = QUESTIONS[-24:-9]
+        deps = QUESTIONS[-26:-11]
         for i in range(spec["n"]):
             pool = [deps[(i * 8 + j) % len(deps)] for j in range(8)]
             allq = [f"q{j}" for j in range(8)]
